@@ -81,6 +81,39 @@ def projEq : Shape → List Nat → List Nat
 leading output dimensions the operand does not have are dropped, extent-1 dimensions read index 0 -/
 def proj (s : Shape) (i : List Nat) : List Nat := projEq s (i.drop (i.length - s.length))
 
+/-- one step of torch's `_broadcast_shapes` loop: `c = common_shape[idx]`, `s = shape[idx]` -/
+def merge1 (c s : Nat) : Option Nat :=
+  if s = c then some c
+  else
+    let c' := if c = 1 then s else c
+    if s = 1 then some c' else if c' = s then some c' else none
+
+/-- `for idx in range(-1, -1 - len(shape), -1)` on reversed lists: the positions `shape` does not have stay as they are -/
+def mergeRev : List Nat → List Nat → Option (List Nat)
+  | c, [] => some c
+  | [], _ :: _ => none
+  | c :: cs, s :: ss =>
+    match merge1 c s, mergeRev cs ss with
+    | some d, some r => some (d :: r)
+    | _, _ => none
+
+/-- `torch._refs._broadcast_shapes(a, b)` as torch computes it: `common_shape = [1] * max(len)`, then every shape is
+merged into it from the trailing end -/
+def torchBroadcast (a b : Shape) : Option Shape :=
+  let n := max a.length b.length
+  match mergeRev (List.replicate n 1) a.reverse with
+  | none => none
+  | some c => (mergeRev c b.reverse).map List.reverse
+
+/-- trailing-aligned recursion (on reversed shapes) -/
+def bcastRev : List Nat → List Nat → Option (List Nat)
+  | [], ys => some ys
+  | xs, [] => some xs
+  | x :: xs, y :: ys =>
+    match bdim x y, bcastRev xs ys with
+    | some d, some r => some (d :: r)
+    | _, _ => none
+
 /-- `x.expand(shape + (d,)).reshape(-1, d).contiguous()`: row `k` of the flattened operand -/
 def flatExpand (x : T α) (shape : Shape) : Nat → α :=
   fun k => x.get (proj x.shape (unravel shape k))
@@ -382,6 +415,123 @@ def required : List String :=
   ["__getitem__", "view", "reshape", "permute", "cat", "stack", "split", "clone", "detach", "to",
    "expand", "gather", "scatter"]
 
+/-! ### ltypes and op signatures -/
+
+inductive LT | SO3 | so3 | SE3 | se3 | Sim3 | sim3 | RxSO3 | rxso3
+deriving DecidableEq, Repr
+
+def LT.all : List LT := [.SO3, .so3, .SE3, .se3, .Sim3, .sim3, .RxSO3, .rxso3]
+
+def LT.className : LT → String
+  | .SO3 => "SO3Type" | .so3 => "so3Type" | .SE3 => "SE3Type" | .se3 => "se3Type"
+  | .Sim3 => "Sim3Type" | .sim3 => "sim3Type" | .RxSO3 => "RxSO3Type" | .rxso3 => "rxso3Type"
+
+/-- (dimension, embedding, manifold) as documented (tables of `pypose.LieTensor`) -/
+def LT.dims : LT → Nat × Nat × Nat
+  | .SO3 => (4, 4, 3) | .so3 => (3, 4, 3) | .SE3 => (7, 7, 6) | .se3 => (6, 7, 6)
+  | .Sim3 => (8, 8, 7) | .sim3 => (7, 8, 7) | .RxSO3 => (5, 5, 4) | .rxso3 => (4, 5, 4)
+
+def LT.dim (t : LT) : Nat := t.dims.1
+def LT.manifold (t : LT) : Nat := t.dims.2.2
+/-- `LieType.on_manifold`: `dimension == manifold` (a Lie algebra) -/
+def LT.onManifold (t : LT) : Bool := t.dims.1 == t.dims.2.2
+
+def LT.algebra : LT → LT
+  | .SO3 | .so3 => .so3 | .SE3 | .se3 => .se3 | .Sim3 | .sim3 => .sim3 | .RxSO3 | .rxso3 => .rxso3
+def LT.group : LT → LT
+  | .SO3 | .so3 => .SO3 | .SE3 | .se3 => .SE3 | .Sim3 | .sim3 => .Sim3 | .RxSO3 | .rxso3 => .RxSO3
+
+inductive Op | Exp | Log | Inv | Mul | Act3 | Act4 | Retr | Adj | AdjT | Jinvp | add | matrix | rotation | translation | scale
+  | euler | tensor | Jr | quat2unit | identityLike | randnLike
+deriving DecidableEq, Repr
+
+def Op.all : List Op := [.Exp, .Log, .Inv, .Mul, .Act3, .Act4, .Retr, .Adj, .AdjT, .Jinvp, .add, .matrix, .rotation, .translation,
+  .scale, .euler, .tensor, .Jr, .quat2unit, .identityLike, .randnLike]
+
+/-- what an op returns: a LieTensor of some ltype, or a plain tensor with the given trailing shape -/
+inductive Res | lie (t : LT) | tensor (trail : List Nat)
+deriving DecidableEq, Repr
+
+/-- the dispatch of `LieTensor.<op>` → `self.ltype.<op>`: result kind, or `none` where the LieType raises
+(`Lie Group has no Exp attribute`, `Lie Algebra has no Log attribute`, `Instance has no Jr attribute`, …) -/
+def sig (op : Op) (t : LT) : Option Res :=
+  let grp := !t.onManifold
+  match op with
+  | .Exp => if grp then none else some (.lie t.group)
+  | .Log => if grp then some (.lie t.algebra) else none
+  | .Inv => some (.lie t)
+  | .Mul => some (.lie t)       -- group ∘ group; on an algebra `Mul` is the element-wise `torch.mul(X, Y)` re-wrapped with the same ltype
+  | .Act3 => if grp then some (.tensor [3]) else none
+  | .Act4 => if grp then some (.tensor [4]) else none
+  | .Retr => if grp then some (.lie t) else none
+  | .Adj | .AdjT | .Jinvp => if grp then some (.lie t.algebra) else none
+  | .add => some (.lie t)
+  | .matrix => some (.tensor (if t.group = .SO3 then [3, 3] else [4, 4]))
+  | .rotation => some (.lie .SO3)
+  | .translation => some (.tensor [3])
+  | .scale => some (.tensor [1])
+  | .euler => some (.tensor [3])
+  | .tensor => some (.tensor [t.dim])
+  | .Jr => if t.group = .SO3 then some (.tensor [3, 3]) else none
+  | .quat2unit => some (.lie t)
+  | .identityLike | .randnLike => some (.lie t)
+
+/-- the full result shape for an operand of lshape `ls` -/
+def Res.shape (ls : Shape) : Res → Shape
+  | .lie t => ls ++ [t.dim]
+  | .tensor tr => ls ++ tr
+
+/-- `LieTensor.__init__`: `assert self.shape[-1:] == ltype.dimension` -/
+def initOk (t : LT) (shape : Shape) : Bool := shape.getLast? == some t.dim
+
+/-! ### effects of the handled functions on memory -/
+
+inductive Effect
+  | fresh      -- the result lives in new memory
+  | view       -- the result may share memory with its first operand; nothing is written
+  | inplace    -- the result IS the first operand, whose memory is overwritten
+deriving DecidableEq, Repr
+
+def effectOf : Sem → Effect
+  | .ident => .view          -- cpu/float/double/to return `self` when nothing changes, detach is a view
+  | .reshape => .view
+  | .permute => .view
+  | .index => .view          -- basic indexing / select / narrow are views (advanced indexing copies: still no write)
+  | .split => .view
+  | .gather => .fresh
+  | .expand => .view         -- expand is a view, repeat/tile copy
+  | .join => .fresh
+  | .overwrite => .fresh     -- out-of-place scatter / index_copy / index_put / select_scatter
+  | .overwriteIn => .inplace
+  | .accumulate => .fresh
+  | .element => .fresh
+
+/-- the naming convention the property uses: a trailing underscore (not a dunder), or item assignment -/
+def inplaceName (n : String) : Bool :=
+  (n.toList.getLast? == some '_' && !(n.toList.reverse.take 2 == ['_', '_'])) || n == "__setitem__"
+
+/-- memory: slot ↦ content; `next` = first unused slot -/
+structure Store (α : Type) where
+  mem : Nat → α
+  next : Nat
+
+/-- a handled function with effect `e`, first operand in slot `self`, computing `val`: new store and the slot of the result -/
+def applyEffect (e : Effect) (st : Store α) (self : Nat) (val : α) : Store α × Nat :=
+  match e with
+  | .fresh => (⟨fun s => if s = st.next then val else st.mem s, st.next + 1⟩, st.next)
+  | .view => (st, self)
+  | .inplace => (⟨fun s => if s = self then val else st.mem s, st.next⟩, self)
+
+def applyHandled (name : String) (st : Store α) (self : Nat) (val : α) : Option (Store α × Nat) :=
+  (semOf name).map fun sem => applyEffect (effectOf sem) st self val
+
+/-- a history of handled-function calls on a store: `(name, slot of the first operand, value the function computes)` -/
+def runHandled {α : Type} : Store α → List (String × Nat × α) → Option (Store α)
+  | st, [] => some st
+  | st, (n, self, v) :: rest => match applyHandled n st self v with
+    | none => none
+    | some r => runHandled r.1 rest
+
 /-! ## `retain_ltype` as a state machine
 
 Slots `0,1,2` are the three torch attributes (`forward_ad.make_dual`,
@@ -459,6 +609,14 @@ def history (ord : List Nat) : Table → List (Body × Option Nat) → Table
   | t, [] => t
   | t, (b, fa) :: rest => history ord (retain ord t b fa).1 rest
 
+/-- `n` contexts nested around `b` -/
+def nestN : Nat → Body → Body
+  | 0, b => b
+  | n + 1, b => .nest (nestN n b) .ret
+def Body.depth : Body → Nat
+  | .ret | .raise => 0
+  | .call _ k => k.depth
+  | .nest inner k => max (inner.depth + 1) k.depth
 /-- every call of the body goes to one of the patched slots -/
 def Body.callsIn (ord : List Nat) : Body → Prop
   | .ret => True
